@@ -114,13 +114,23 @@ try:
         except OSError: return 'OSError'
         except Exception as e: return 'Other:' + type(e).__name__
         finally: os.chdir(home)
-    for cwd_, entry_, k, want in [('', 'link/a.nix', 1, 'Reached 1'), ('', 'link/a.nix', 2, 'Reached 2'), ('', 'link/a.nix', 3, 'OSError'), ('other', '../link/a.nix', 2, 'Reached 2'),
+    # a directory literally named `~` (ninth round): a path is a path, never a home-directory abbreviation; $HOME points at decoys
+    os.makedirs(os.path.join(sb, '~', 'sub')); os.makedirs(os.path.join(sb, 'home'))
+    W('~/main.nix', '{ id = "id40"; next = import ./set.nix; }\n'); W('~/set.nix', '{ id = "id41"; next = import ./sub/b.nix; }\n'); W('~/sub/b.nix', '{ id = "id42"; next = import ../top.nix; }\n'); W('~/top.nix', '{ id = "id43"; next = import ./none.nix; }\n')
+    W('home/main.nix', '{ id = "id95"; next = import ./set.nix; }\n'); W('home/set.nix', '{ id = "id96"; next = import ./set.nix; }\n'); W('home/none.nix', '{ id = "id97"; next = import ./set.nix; }\n')
+    old_home = os.environ.get('HOME'); os.environ['HOME'] = os.path.join(sb, 'home')
+    for cwd_, entry_, k, want in [('', '~/main.nix', 0, 'Reached 40'), ('', '~/main.nix', 1, 'Reached 41'), ('', '~/main.nix', 3, 'Reached 43'), ('', '~/main.nix', 4, 'OSError'), ('', './~/main.nix', 2, 'Reached 42'),
+                                  ('~', 'main.nix', 1, 'Reached 41'), ('', os.path.join(sb, '~', 'main.nix'), 3, 'Reached 43'),
+                                  ('', 'link/a.nix', 1, 'Reached 1'), ('', 'link/a.nix', 2, 'Reached 2'), ('', 'link/a.nix', 3, 'OSError'), ('other', '../link/a.nix', 2, 'Reached 2'),
                                   ('', os.path.join(sb, 'link', 'a.nix'), 1, 'Reached 1'), ('', 'real/deep/a.nix', 2, 'Reached 2'), ('real/lib', 'e.nix', 1, 'OSError'), ('', 'real/lib/d.nix', 1, 'OSError')]:
         got = follow(cwd_, entry_, k); kk = 'symlink-dotdot/' + got.split()[0]; keys[kk] = keys.get(kk, 0) + 1
         if got != want: viol.append({'layout': 'sym: link -> real/deep; real/deep/a.nix imports ../b.nix; real/b.nix imports ./lib/d.nix; real/lib/d.nix imports ./nope/../d.nix; decoys b.nix, lib/d.nix beside link', 'cwd': cwd_, 'entry': entry_.replace(sb, '<T>/sym'), 'hops': k, 'got': got, 'expected': want,
                                      'what': 'import chain gives %s, the operating system\'s resolution relative to the importing file gives %s' % (got, want)})
 finally:
     os.chdir(home); shutil.rmtree(T, ignore_errors=True)
+    if 'old_home' in dir():
+        if old_home is None: os.environ.pop('HOME', None)
+        else: os.environ['HOME'] = old_home
 HDR = ('From Coq Require Import List Ascii String Bool Arith. Import ListNotations. Open Scope string_scope.\n'
        'From Small Require Import PathRes PathFS.\n'
        'Definition T : Type := (fsys * nat * cdir * list ascii * outcome)%type.\n'
